@@ -1,7 +1,7 @@
 """C16 - virtual file system: a script/#include path resolves to the file under the deepest mapped
 prefix (first root containing it), relative paths against the current file, never outside the
 mapped directories; plus the PBO route C17 relies on (entries readable under the archive's prefix)."""
-import json, os, posixpath, struct, subprocess, sys, tempfile, shutil
+import json, os, posixpath, random, re, struct, subprocess, sys, tempfile, shutil
 import vcommon as V
 
 PID = "C16"
@@ -91,12 +91,12 @@ class Spec:
     """The property, read literally, on a tree + mappings. Results are canonical file paths.
     Where the property is silent the answer is a set of acceptable outcomes or 'unspecified'."""
 
-    def __init__(self, tree, maps):
+    def __init__(self, tree, maps, cwd=B):
         self.tree = tree
         self.maps = []       # (virtual prefix as tuple of segments, lexically normal absolute root, root was given relative)
         for phys, virt in maps:
             p = cleanse_keep(phys)
-            root = norm(p if p.startswith("/") else B + "/" + p)
+            root = norm(p if p.startswith("/") else cwd + "/" + p)      # cwd: the working directory of the process (harness: B)
             self.maps.append((tuple(vsegs(virt.replace("\\", "/"))), root, not p.startswith("/")))
 
     def roots(self, pre):
@@ -767,6 +767,352 @@ def cli_cases(run, stats):
         shutil.rmtree(d, ignore_errors=True)
 
 
+# ---------------------------------------------------------------- cli.cpp: the mappings of a real sqfvm process
+# The file system of a run of the shipped executable is what the command line says: every `-v PHYS|VIRT` in the order given and
+# then - unless --no-load-executable-dir - the working directory on "/" (cli::mount_filesystem, cli::run).  The cases run the
+# executable itself in a generated tree and judge what the script operators / #include resolve to with the property (class Spec on
+# the list of mappings the command line names); nothing is compared with the model here.
+CLI_ROOTS = ["/", "\\", "//", "\\\\", "/\\", "\\/"]          # spellings of the virtual root
+CLI_VIRT = [v for v in VIRT if v != ""]                          # ("DIR|" has no virtual side: the CLI documents it as skipped)
+CLI_CWD = [B, B + "/r1", B + "/r2", B + "/r3", B + "/out", B + "/r1/sub", B + "/wd"]
+CLI_OPS = ["loadFile", "loadFile", "loadFile", "preprocessFile", "preprocessFileLineNumbers", "execVM", "execVM"]
+CLI_LOG = re.compile(r"^\[(INF|WRN|ERR|FAT|VRB|TRC)\]")
+CLI_MARK = re.compile(r"\[DIAG_LOG\] \[@([RE]),(\d+)(?:,\[([0-9,]*)\])?\]\s*$")
+
+
+def root_of(phys, cwd):
+    p = cleanse_keep(phys)
+    return norm(p if p.startswith("/") else cwd + "/" + p)
+
+
+def virt_of(maps, f, cwd):
+    """the virtual spellings of file f: one per mapping whose physical directory holds it"""
+    out = []
+    for phys, virt in maps:
+        root = root_of(phys, cwd)
+        if root != "/" and (f + "/").startswith(root + "/") and ".." not in virt:
+            out.append("/" + "/".join(vsegs(virt.replace("\\", "/")) + vsegs(f[len(root):])))
+    return out
+
+
+def cli_vargs(rng):
+    n = rng.choice([1, 1, 2, 2, 3, 4])
+    out = []
+    for _ in range(n):
+        k = rng.random()
+        if out and k < 0.25:
+            virt = rng.choice(out)[1]              # several directories on one prefix
+            if rng.random() < 0.5:
+                virt = virt.replace("/", "\\")
+        elif k < 0.5:
+            virt = rng.choice(CLI_ROOTS)           # a directory mapped to the virtual root itself
+        else:
+            virt = rng.choice(CLI_VIRT)
+        out.append((rng.choice(PHYS[:9] if rng.random() < 0.8 else PHYS), virt))
+    return out
+
+
+def cli_ok_req(req):
+    return not any(ch in req for ch in "\n\r\0\"")
+
+
+def gen_cli_configs(rng, scale):
+    """one configuration = a tree, the -v mappings, the working directory, with/without its implicit mapping; three processes each:
+    script operators (--sqf), a file preprocessed from disk (-E, #include from a file without virtual path), #include in --sqf text"""
+    cfgs = []
+    for i in range(150 * scale):
+        t = rand_tree(rng)
+        t.add_file(B + "/r1/chain.sqf", "#include \"sub\\chain2.sqf\"\n" + ident(B + "/r1/chain.sqf"))
+        t.add_file(B + "/r1/sub/chain2.sqf", "#include \"..\\a.sqf\"\n" + ident(B + "/r1/sub/chain2.sqf"))
+        cwd = rng.choice(CLI_CWD)
+        t.add_dir(cwd)
+        if cwd == B + "/wd":                       # a working directory of its own, holding files named like the mapped ones
+            for rel in rng.sample(POOL[:12], 5):
+                t.add_file(cwd + "/" + rel)
+        noexec = rng.random() < 0.4
+        vargs = cli_vargs(rng)
+        maps = vargs + ([] if noexec else [(cwd, "/")])
+        files = sorted(f for f in t.files if f.endswith(".sqf"))
+        # a file that includes another one through a virtual path of it
+        tgt = rng.choice(files)
+        vs = virt_of(maps, tgt, cwd)
+        special = [B + "/r1/chain.sqf", B + "/r1/sub/chain2.sqf", tgt]
+        if vs:
+            t.add_file(B + "/r2/vinc.sqf", "#include \"%s\"\n%s" % (rng.choice(vs).replace("/", "\\"), ident(B + "/r2/vinc.sqf")))
+            special.append(B + "/r2/vinc.sqf")
+
+        def some_request():
+            k = rng.random()
+            if k < 0.6:
+                return rand_request(rng, t, maps)
+            if k < 0.72:
+                return rand_relative(rng)           # from a script: against the virtual root
+            f = rng.choice(special)
+            v2 = virt_of(maps, f, cwd)
+            req = rng.choice(v2) if v2 else f
+            if rng.random() < 0.4:
+                req = req.replace("/", "\\")
+            if rng.random() < 0.1:
+                req = req.lstrip("/\\") or req
+            return req
+
+        runs = []
+        reqs = []
+        for _ in range(8):
+            req = some_request()
+            if cli_ok_req(req):
+                reqs.append((rng.choice(CLI_OPS), req))
+        runs.append(dict(route="sqf", requests=reqs, top="", top_arg=""))
+        # -E: the file named on the command line has a physical path only
+        top = rng.choice([B + "/r1/sub/top.sqf", B + "/r2/top.sqf", B + "/out/top.sqf", cwd + "/top.sqf"])
+        n = rng.choice(files)
+        flav = rng.random()
+        v2 = virt_of(maps, n, cwd)
+        if flav < 0.35 or (flav < 0.7 and not v2):
+            req = posixpath.relpath(n, posixpath.dirname(top))
+        elif flav < 0.7:
+            req = rng.choice(v2)
+        elif flav < 0.8:
+            req = n
+        else:
+            req = some_request()
+        if rng.random() < 0.4:
+            req = req.replace("/", "\\")
+        if rng.random() < 0.15:
+            req = mutate(rng, req)
+        if cli_ok_req(req):
+            t.add_file(top, "#include \"%s\"\n%s" % (req, ident(top)))
+            runs.append(dict(route="E", requests=[("include", req)], top=top,
+                             top_arg=top if rng.random() < 0.6 else posixpath.relpath(top, cwd)))
+        req = some_request()
+        if cli_ok_req(req):
+            runs.append(dict(route="inc", requests=[("include", req)], top="", top_arg=""))
+        cfgs.append(dict(tree=t, vargs=vargs, cwd=cwd, noexec=noexec, runs=runs))
+    return cfgs
+
+
+def cli_exec(exe, cfg):
+    """realise the tree below a fresh directory of the same depth as B, run the processes of the configuration in it"""
+    base = tempfile.mkdtemp(prefix="vvfc", dir="/tmp")
+    bs = base.replace("/", "\\")
+
+    def sub_in(x):
+        return x.replace(B, base).replace(B.replace("/", "\\"), bs)
+
+    try:
+        t = cfg["tree"]
+        for d in sorted(t.dirs):
+            if d not in ("/tmp", B):
+                os.makedirs(sub_in(d), exist_ok=True)
+        for p, c in t.files.items():
+            os.makedirs(os.path.dirname(sub_in(p)), exist_ok=True)
+            with open(sub_in(p), "wb") as fh:
+                fh.write(sub_in(c).encode("latin-1"))
+        for r in cfg["runs"]:
+            cmd = [exe, "-a", "--no-execute-print", "--suppress-welcome"] + (["--no-load-executable-dir"] if cfg["noexec"] else [])
+            for ph, vi in cfg["vargs"]:
+                cmd += ["-v", ph + "|" + vi]
+            if r["route"] == "sqf":
+                code = []
+                for k, (op, req) in enumerate(r["requests"]):
+                    q = '"' + req.replace('"', '""') + '"'
+                    if op == "execVM":
+                        # the script started by execVM runs after this one; the one spawned behind it reports what it left
+                        code.append('RES = "<unset>"; execVM %s; diag_log ["@E",%d]; %d spawn {diag_log ["@R",_this,toArray RES]; RES = "<unset>"};' % (q, k, k))
+                    else:
+                        code.append('diag_log ["@R",%d,toArray (%s %s)];' % (k, op, q))
+                cmd += ["--sqf", " ".join(code)]
+            elif r["route"] == "E":
+                cmd += ["-E", r["top_arg"]]
+            else:
+                cmd += ["--sqf", 'RES = "<unset>";\n#include "%s"\ndiag_log ["@R",0,toArray RES];' % r["requests"][0][1]]
+            r["cmd"] = " ".join("'%s'" % a if (" " in a or "\\" in a or "|" in a or "\n" in a or '"' in a) else a for a in ["sqfvm"] + cmd[1:])
+            rc, out = V.sh([sub_in(a) for a in cmd], timeout=120, cwd=sub_in(cfg["cwd"]))
+            r["rc"], r["out"] = rc, out.replace(base, B)         # (texts come back as arrays of character codes: cli_parse gets `base`)
+            r["base"] = base
+    finally:
+        shutil.rmtree(base, ignore_errors=True)
+    return cfg
+
+
+def cli_payload(lines):
+    return [l for l in lines if l.strip(" \t\r") != "" and not l.lstrip(" \t").startswith("#line") and not CLI_LOG.match(l)]
+
+
+def cli_parse(out, base=""):
+    """the marked diag_log lines of a --sqf run: request number -> not-found / error messages before it, the text reported"""
+    res, seg = {}, []
+    for ln in out.split("\n"):
+        m = CLI_MARK.search(ln)
+        if not m:
+            seg.append(ln)
+            continue
+        k = int(m.group(2))
+        if k not in res:
+            res[k] = {"nf": any("could not be located" in l for l in seg), "err": any(l.startswith(("[ERR]", "[FAT]")) for l in seg)}
+        if m.group(1) == "R":
+            text = "".join(chr(int(x)) for x in (m.group(3) or "").split(",") if x)
+            res[k]["text"] = text.replace(base, B) if base else text
+        seg = []
+    return res
+
+
+def cli_expect(spec, tree, op, req):
+    """what the property gives for a script operator of a --sqf script (empty current file)"""
+    r = spec.resolve(req)
+    if op == "loadFile":
+        return r
+    if r == "unspecified" or len(r) != 1:
+        return "unspecified"
+    f0 = next(iter(r))
+    expp = "NF" if f0 is None else spec_expand(spec, f0, "?", tree.files[f0], [f0])
+    if op == "execVM" and isinstance(expp, list):
+        if any(content_file(x) is None for x in expp):
+            return "unspecified"             # text that is no SQF: nothing to observe
+        expp = "RES:" + content_file(expp[-1])
+    return expp
+
+
+def cli_judge(run, cfg, stats):
+    t, cwd = cfg["tree"], cfg["cwd"]
+    maps = list(cfg["vargs"]) + ([] if cfg["noexec"] else [(cwd, "/")])
+    spec = Spec(t, maps, cwd)
+    cs = stats["climount"]
+    root_v = any(vsegs(v.replace("\\", "/")) == [] for p, v in cfg["vargs"])
+    for r in cfg["runs"]:
+        cs["processes"] += 1
+        cs["route " + r["route"]] = cs.get("route " + r["route"], 0) + 1
+        if root_v:
+            cs["processes with a -v mapping on the virtual root"] += 1
+        if not cfg["noexec"]:
+            cs["processes with the working directory mapped implicitly"] += 1
+        out = r["out"]
+
+        def report(k, why, exp, got):
+            op, req = r["requests"][k]
+            run.violation("sqfvm %s(cwd %s): %s %r: %s" % (" ".join("-v '%s|%s'" % (p, v) for p, v in cfg["vargs"]) +
+                                                             (" --no-load-executable-dir " if cfg["noexec"] else " "), cwd, op, req, why),
+                          {"kind": "climount", "files": t.files, "dirs": sorted(t.dirs), "vargs": [list(x) for x in cfg["vargs"]], "cwd": cwd,
+                           "noexec": cfg["noexec"], "route": r["route"], "requests": [list(x) for x in r["requests"]], "top": r["top"],
+                           "top_arg": r["top_arg"], "position": k, "request": [op, req], "mappings_in_effect": [list(x) for x in maps],
+                           "expected": str(exp)[:400], "got": str(got)[:400], "cmd": r["cmd"], "exit": r["rc"], "output": out[-1500:]})
+
+        def contained(k, lines):
+            for l in lines:
+                f = content_file(l)
+                if f is not None and f in t.files and not spec.inside(f) and f != norm(r["top"] or "/"):
+                    report(k, "text of a file outside every mapped directory was used: " + f, "a file below the mapped directories", f)
+                    return False
+            return True
+
+        def mark(k, got):
+            cs["judged"] += 1
+            if got not in (None, "NF", "FAIL") and got:
+                cs["resolved to a file"] += 1
+                stats["nontrivial"].add(("climount", str(maps), cwd, r["route"], str(r["requests"][k]), str(got)[:120]))
+                if root_v:
+                    cs["resolved with a -v mapping on the virtual root"] += 1
+
+        if r["rc"] == 124 or "[timeout]" in out[-20:]:
+            report(0, "the process did not end", "a result", "timeout")
+            continue
+        if r["route"] == "sqf":
+            res = cli_parse(out, r.get("base", ""))
+            for k, (op, req) in enumerate(r["requests"]):
+                cs["resolutions"] += 1
+                d = res.get(k)
+                if d is None or "text" not in d:
+                    report(k, "the run gave no result for this request (exit %s)" % r["rc"], "a result", "nothing")
+                    break
+                text = d["text"]
+                exp = cli_expect(spec, t, op, req)
+                if op == "loadFile":
+                    got = None if text == "" else (which_file(t, text) or "<other text>")
+                    if got is not None and got != "<other text>" and not spec.inside(got):
+                        report(k, "a file outside every mapped directory was read: " + got, exp, got)
+                    elif exp == "unspecified":
+                        cs["unspecified"] += 1
+                    elif got not in exp:
+                        if got is None:
+                            report(k, "reported as not found, the property resolves it to " + "/".join(sorted(str(x) for x in exp)), exp, got)
+                        elif exp == {None}:
+                            report(k, "resolved to %s, the property says not found" % got, exp, got)
+                        else:
+                            report(k, "the wrong root/prefix won: got %s, the property says %s" % (got, "/".join(sorted(str(x) for x in exp))), exp, got)
+                    else:
+                        mark(k, got)
+                    continue
+                if op == "execVM":
+                    gotp = "NF" if d["nf"] else ("FAIL" if d["err"] else "RES:" + text)
+                    if gotp.startswith("RES:") and not contained(k, [ident(text)]):
+                        continue
+                else:
+                    gotp = ("NF" if d["nf"] else "FAIL" if d["err"] else []) if text == "" else cli_payload(text.split("\n"))
+                    if isinstance(gotp, list) and not contained(k, gotp):
+                        continue
+                if exp == "unspecified":
+                    cs["unspecified"] += 1
+                elif gotp != exp:
+                    if op == "execVM" and gotp.startswith("RES:"):
+                        report(k, "execVM did not run the code of the file the property resolves: afterwards %s, expected %s" % (gotp, exp), exp, gotp)
+                    else:
+                        report(k, "%s gave %s, the property gives %s" % (op, str(gotp)[:200], str(exp)[:200]), exp, gotp)
+                else:
+                    mark(k, gotp)
+            continue
+        cs["resolutions"] += 1
+        req = r["requests"][0][1]
+        if r["route"] == "E":
+            ta = r["top_arg"]
+            curp = ta if ta.startswith("/") else cwd + "/" + ta
+            exp = spec_expand(spec, curp, "", t.files[norm(r["top"])], [norm(curp)])
+            gotp = "FAIL" if "Failed to preprocess file" in out else ("UNREADABLE" if "Failed to load file" in out else cli_payload(out.split("\n")))
+        else:
+            exp = spec_expand(spec, "__commandline", "", "#include \"%s\"" % req, ["__commandline"])
+            if isinstance(exp, list):
+                exp = "unspecified" if any(content_file(x) is None for x in exp) or not exp else "RES:" + content_file(exp[-1])
+            d = cli_parse(out, r.get("base", "")).get(0)
+            gotp = "FAIL" if "Failed to preprocess file" in out else ("RES:" + d["text"] if d and "text" in d else "NOTHING")
+        lines = gotp if isinstance(gotp, list) else ([ident(gotp[4:])] if gotp.startswith("RES:") else [])
+        if not contained(0, lines):
+            continue
+        if exp == "unspecified":
+            cs["unspecified"] += 1
+        elif gotp != exp:
+            report(0, "#include %s: got %s, the property gives %s" %
+                   ("from " + r["top"] + " (named on the command line)" if r["route"] == "E" else "in the text given with --sqf", str(gotp)[:200], str(exp)[:200]),
+                   exp, gotp)
+        else:
+            mark(0, gotp)
+
+
+def cli_mount_cases(run, stats, scale, replay=None):
+    exe = os.path.join(V.BUILD, "plain", "sqfvm")
+    stats["climount"] = {"processes": 0, "resolutions": 0, "judged": 0, "unspecified": 0, "resolved to a file": 0,
+                         "processes with a -v mapping on the virtual root": 0, "resolved with a -v mapping on the virtual root": 0,
+                         "processes with the working directory mapped implicitly": 0}
+    if not os.path.exists(exe):
+        return
+    if replay is not None:
+        t = Tree()
+        for d in replay.get("dirs", []):
+            t.add_dir(d)
+        for p, c in replay.get("files", {}).items():
+            t.add_file(p, c)
+        cfgs = [dict(tree=t, vargs=[tuple(x) for x in replay["vargs"]], cwd=replay["cwd"], noexec=replay["noexec"],
+                     runs=[dict(route=replay["route"], requests=[tuple(x) for x in replay["requests"]], top=replay.get("top", ""),
+                                top_arg=replay.get("top_arg", ""))])]
+    else:
+        # a generator of its own: the cases of the other families do not move
+        cfgs = gen_cli_configs(random.Random(run.seed * 7919 + 1601), scale)
+    from concurrent.futures import ThreadPoolExecutor
+    with ThreadPoolExecutor(max(2, min(V.NPROC, 8))) as ex:
+        done = list(ex.map(lambda c: cli_exec(exe, c), cfgs))
+    for cfg in done:
+        cli_judge(run, cfg, stats)
+    stats["kinds"]["climount"] = stats["climount"]["resolutions"]
+
+
 def main(replay=None):
     run = V.Run(PID, "proof")
     rng = run.rng
@@ -783,9 +1129,12 @@ def main(replay=None):
         cases.append(dict(kind=kind, line=line(kind, tree, setup, req, curp, curv), tree=tree, maps=maps, setup=setup,
                           req=req, curp=curp, curv=curv, note=note))
 
+    cli_replay = None
     if replay:
         r = json.load(open(replay))["replay"]
-        if r.get("kind") not in ("cli", "fs", None):
+        if r.get("kind") == "climount":
+            cli_replay = r
+        elif r.get("kind") not in ("cli", "fs", None):
             case_from_dict(r, add, "replay")
         elif r.get("kind") == "fs":
             add("fs", Tree(), [], r["req"], r.get("curp", ""))
@@ -828,10 +1177,12 @@ def main(replay=None):
             continue
         judge(run, c, il, ml, stats)
     cli_cases(run, stats)
+    if cli_replay is not None or not replay:
+        cli_mount_cases(run, stats, scale, cli_replay)
 
     for p in problems:
         run.violation("proof obligation not discharged: " + p, {"broken": p, "theorems": run.cov["theorems"]}, found_input=False)
-    run.cov["evaluations"] = len(cases) + stats.get("cli", 0)
+    run.cov["evaluations"] = len(cases) + stats.get("cli", 0) + stats.get("climount", {}).get("resolutions", 0)
     run.cov["distinct_nontrivial"] = len(stats["nontrivial"])
     run.cov["rule"] = ("random directory trees (3 mapped roots + unmapped siblings, every file's content names its own path), 1-5 mappings "
                        "(nested/overlapping prefixes, several roots per prefix, backslash/slash/trailing/relative variants), requests: virtual paths "
@@ -839,7 +1190,16 @@ def main(replay=None):
                        "physical paths inside/outside the roots and prefixes of roots; relative paths against files/directories/absent current "
                        "files; through get_info+read_file, loadFile, preprocessFile, preprocessFileLineNumbers, execVM, #include chains to depth 3, "
                        "PBO archives (own packer) and the CLI's --input-pbo; plus the std::filesystem model against libstdc++. A case is "
-                       "non-trivial when a file is resolved/run; distinct by (mappings, request, current file, result)")
+                       "non-trivial when a file is resolved/run; distinct by (mappings, request, current file, result). "
+                       "Command line (climount): the shipped executable run in generated trees with 1-4 `-v PHYS|VIRT` mappings (every "
+                       "spelling of the virtual root - / \\ // \\\\ /\\ \\/ -, prefixes with and without trailing separators, nested "
+                       "prefixes, several directories on one prefix, relative / backslash / unnormalised / missing physical sides), from 7 "
+                       "working directories (one with files named like the mapped ones), with and without --no-load-executable-dir (the "
+                       "working directory is mapped on / behind the -v mappings); requests of the same generators through loadFile, "
+                       "preprocessFile, preprocessFileLineNumbers, execVM (8 per --sqf script), `-E file` (#include from a file that has a "
+                       "physical path only) and #include in --sqf text; every answer judged by the property alone (class Spec on the "
+                       "mappings the command line names: deepest prefix, first directory holding the file, nothing outside)")
+    run.cov["cli_mount"] = stats.get("climount", {})
     run.cov["input_distribution"] = stats["kinds"]
     run.cov["samples"] = stats["samples"]
     run.cov["model_ub_cases_not_crashing_on_impl"] = stats["ub_unobserved"]
